@@ -28,14 +28,20 @@ def hx(b):
     return "-" if len(b) == 0 else bytes(b).hex()
 
 
+# every byte / half-word / lane boundary of the counter: an increment implemented on narrower or wider lanes
+# (8, 16, 64 bit) or with a lost carry shows exactly there
+CARRY32 = [2 ** 8 - 1, 2 ** 16 - 1, 2 ** 16, 2 ** 24 - 1, 2 ** 31 - 1, 2 ** 31]
+CARRY64 = [2 ** 40 - 1, 2 ** 48 - 1, 2 ** 56 - 1, 2 ** 63 - 1, 2 ** 63]
+
+
 def starts32(rng):
-    return [0, 1, M32 - 2, M32 - 1, rng.randrange(2, M32 - 2)]
+    return [0, 1, M32 - 2, M32 - 1, rng.randrange(2, M32 - 2)] + CARRY32
 
 
 def starts64(rng):
     k = rng.randrange(1, M32 - 1)
     return [0, 1, M32 - 2, M32 - 1, M32, M32 + 1, k * M32 - 2, k * M32 - 1, k * M32, (M32 - 1) * M32 + M32 - 2,
-            M64 - 2, M64 - 1, rng.randrange(2, M64 - 2)]
+            M64 - 2, M64 - 1, rng.randrange(2, M64 - 2)] + CARRY32 + CARRY64
 
 
 def gen_C03(tier, rng):
@@ -71,7 +77,7 @@ def gen_C03(tier, rng):
                 for nl in (8, 12, 16):
                     key, nonce = rng.rbytes(kl), rng.rbytes(nl)
                     yield (f"stream.eng {which} {R} {hx(key)} {hx(nonce)} s;b;h", f"eng.{which}.k{kl}.init")
-                    for c in (0, 1, M32 - 1):
+                    for c in [0, 1, M32 - 1] + CARRY32:
                         yield (f"stream.eng {which} {R} {hx(key)} {hx(nonce)} c{c};s;b;i;s;b", f"eng.{which}.k{kl}.ctr32")
                     for c in (0, M32 - 1, M32, rng.randrange(1, M32) * M32 - 1, M64 - 1, rng.randrange(M64)):
                         yield (f"stream.eng {which} {R} {hx(key)} {hx(nonce)} C{c};s;b;I;s;b;I;s",
@@ -225,9 +231,9 @@ def gen_C16(tier, rng):
                 for _ in range(2 if quick else 10):
                     key, nonce = rng.rbytes(kl), rng.rbytes(nl)
                     yield (f"stream.eng2 {R} {hx(key)} {hx(nonce)} s;b;h", f"chacha.eng2.k{kl}.n{nl}.init")
-                    c32 = rng.choice([0, 1, M32 - 1, rng.randrange(M32)])
+                    c32 = rng.choice([0, 1, M32 - 1, rng.randrange(M32)] + CARRY32)
                     yield (f"stream.eng2 {R} {hx(key)} {hx(nonce)} c{c32};s;b;h;i;s;b;i;b", f"chacha.eng2.k{kl}.ctr32")
-                    c64 = rng.choice([M32 - 1, M64 - 1, rng.randrange(M32) * M32 + M32 - 1, rng.randrange(M64)])
+                    c64 = rng.choice([M32 - 1, M64 - 1, rng.randrange(M32) * M32 + M32 - 1, rng.randrange(M64)] + CARRY32 + CARRY64)
                     yield (f"stream.eng2 {R} {hx(key)} {hx(nonce)} C{c64};s;b;I;s;b;I;s;b;h", f"chacha.eng2.k{kl}.ctr64")
     # consecutive blocks 1..=20 from arbitrary counters
     for nblk in range(1, 21):
